@@ -4,6 +4,7 @@ package main
 // local cells as value trees, structured addresses.
 
 import (
+	"os"
 	"fmt"
 	"go/types"
 	"sort"
@@ -30,6 +31,9 @@ type State struct {
 	// lockSnap is the state right after the most recent Lock() on this path
 	// (havoc + invariant); atlock(e) evaluates e there
 	lockSnap *State
+	// iterSnap is the loop-header state of the iteration whose back edge is
+	// being checked (set only while backedge clauses are evaluated)
+	iterSnap *State
 }
 
 func (s *State) clone() *State {
@@ -72,10 +76,32 @@ func (ex *Exec) comp(st *State, key string, s Sort) string {
 	if _, ok := ex.comps[key]; !ok {
 		ex.comps[key] = compInfo{key, s}
 	}
-	e := st.epoch
+	return ex.resolveAt(key, s, st.epoch)
+}
+
+// resolveAt names the value a component that was never touched on the path
+// has in a state of epoch e: the constant of the nearest enclosing epoch that
+// may have changed it. A merge epoch (two paths with different histories)
+// resolves to the common name when both sides agree and to their ite otherwise.
+func (ex *Exec) resolveAt(key string, s Sort, e int) string {
 	for {
 		info, ok := ex.epochInfo[e]
-		if !ok || info.all {
+		if !ok {
+			break
+		}
+		if info.isMerge {
+			ta, tb := ex.resolveAt(key, s, info.mergeA), ex.resolveAt(key, s, info.mergeB)
+			if ta == tb {
+				return ta
+			}
+			name := fmt.Sprintf("H%d_%s", e, key)
+			if !ex.vc.declared[name] {
+				ex.vc.DeclareOnce(name, s)
+				ex.vc.cmds = append(ex.vc.cmds, fmt.Sprintf("(assert (= %s (ite %s %s %s)))", name, info.mergeG, ta, tb))
+			}
+			return name
+		}
+		if info.all {
 			break
 		}
 		hit := false
@@ -446,7 +472,9 @@ func (ex *Exec) havocAllHeap(st *State, why string) {
 	}
 	// globals too
 	st.globs = map[*ssa.Global]Val{}
-	_ = why
+	if os.Getenv("GOVC_DEBUG") != "" {
+		fmt.Fprintf(os.Stderr, "havocAllHeap (epoch %d): %s\n", ex.epochs, why)
+	}
 }
 
 var nonNilOpaque = map[string]bool{
